@@ -391,11 +391,24 @@ def run_dpd(offset, peer):
     for k in range(1, 3 * DPD + 30):
         sa = next((s for s in w.endpoints['A'].controller.ike_sas if bytes(s.my_spi) == first_spi), None)
         could_probe = sa is not None and sa.state == State.ESTABLISHED
-        if peer == 'silent-busy-sockets':
-            # select() never times out: some socket is readable at least once a second (here: a 1-octet datagram from a
-            # host nobody knows).  The timers are served all the same.
+        if peer.startswith('silent-busy-sockets'):
+            # select() never times out: some socket is readable at least once a second (a 1-octet datagram from a host
+            # nobody knows; a well-formed IKE_SA_INIT request from a host without connection; a kernel ACQUIRE for a policy that
+            # is not the daemon's; a status query).  The timers are served all the same.
             w.step(('advance', 1.0))
-            w.step(('inject', 'A', b'\x00', '192.168.0.99'))
+            what = peer.partition(':')[2]
+            if what == 'init-from-stranger':
+                from harness import forge as F
+                w.step(('inject', 'A', F.clear(bytes([k & 0xFF]) * 8, b'\0' * 8, 34, 0x08, 0, []), '192.168.0.99'))
+            elif what == 'foreign-acquire':
+                import ipaddress
+                from harness import kernel as K
+                x, y = ipaddress.ip_address('192.168.0.98'), ipaddress.ip_address('192.168.0.99')
+                w.step(('kevent', 'A', K.enc_acquire(x, y, K.enc_selector(x, y, 0, 0, 6, 32, 32), 0x7ffff9)))
+            elif what == 'status-queries':
+                w.step(('status', 'A'))
+            else:
+                w.step(('inject', 'A', b'\x00', '192.168.0.99'))
         else:
             w.step(('tick', 1.0))
         idle = w.clock - last_input
@@ -539,6 +552,8 @@ def dpd_cases():
     yield ('dpd', 0, 'silent')
     yield ('dpd', 0, 'silent-with-noise')
     yield ('dpd', 0, 'silent-busy-sockets')
+    for what in ('init-from-stranger', 'foreign-acquire', 'status-queries'):
+        yield ('dpd', 0, 'silent-busy-sockets:' + what)
     yield ('dpd-childless', 0, 'silent')
     for a_hi in (False, True):
         for peer in ('answering', 'silent', 'collides', 'collides-once'):
